@@ -331,6 +331,20 @@ theorem sortedEntries_sorted {lt : κ → κ → Bool} {m : AMap κ ν} (hm : AM
 
 end
 
+/-- A strictly sorted list is determined by its set of entries: two sorted permutations coincide. -/
+theorem Sorted.eq_of_perm {lt : κ → κ → Bool} (ht : StrictTotal lt) {xs ys : List (κ × ν)}
+    (hx : Sorted lt xs) (hy : Sorted lt ys) (hp : xs.Perm ys) : xs = ys := by
+  refine List.Perm.eq_of_pairwise (le := fun (a b : κ × ν) => lt a.1 b.1 = true) ?_ hx hy hp
+  intro a b _ _ hab hba
+  rw [ht.asymm hab] at hba; cases hba
+
+/-- Sorting an already sorted list of entries changes nothing. -/
+theorem sortedEntries_of_sorted {lt : κ → κ → Bool} (ht : StrictTotal lt) {m : AMap κ ν} (h : Sorted lt m) :
+    sortedEntries lt m = m := by
+  unfold sortedEntries
+  apply List.mergeSort_of_pairwise
+  exact List.Pairwise.imp (fun hab => by simp [ht.asymm hab]) h
+
 /-- In a map without duplicate keys, lookup is membership. -/
 theorem _root_.CwPlus.AMap.get?_eq_some_iff [DecidableEq κ] {m : AMap κ ν} (hm : AMap.NodupKeys m) {k : κ} {v : ν} :
     AMap.get? m k = some v ↔ (k, v) ∈ m := by
@@ -444,6 +458,12 @@ theorem Sorted.reverse {lt : κ → κ → Bool} {xs : List (κ × ν)} (h : Sor
     Sorted (fun a b => lt b a) xs.reverse :=
   List.pairwise_reverse.mpr h
 
+/-- The descending storage order is the ascending one reversed. -/
+theorem sortedEntriesDesc_eq_reverse [DecidableEq κ] {lt : κ → κ → Bool} {m : AMap κ ν} (hm : AMap.NodupKeys m)
+    (ht : StrictTotal lt) : sortedEntriesDesc lt m = (sortedEntries lt m).reverse :=
+  Sorted.eq_of_perm ht.flip (sortedEntriesDesc_sorted hm ht) (sortedEntries_sorted hm ht).reverse
+    ((sortedEntries_perm _ m).trans ((List.reverse_perm _).trans (sortedEntries_perm lt m)).symm)
+
 /-- Filtering commutes with the cursor: `range(after).filter(p).take(n)` is a page of the filtered listing. -/
 theorem afterCursor_filter (lt : κ → κ → Bool) (xs : List (κ × ν)) (p : κ × ν → Bool) (after : Option κ) :
     (afterCursor lt xs after).filter p = afterCursor lt (xs.filter p) after := by
@@ -460,5 +480,30 @@ theorem fetchAll_filter_complete {lt : κ → κ → Bool} (ht : StrictTotal lt)
     (p : κ × ν → Bool) {limit : Option Nat} (hl : 1 ≤ effLimit limit) {fuel : Nat}
     (hf : (xs.filter p).length + 1 ≤ fuel) : fetchAll lt (xs.filter p) limit none fuel = xs.filter p :=
   fetchAll_complete ht (h.filter p) hl hf
+
+/-- **One line per descending listing**: a query that is
+`pageDesc lt (sortedEntriesDesc lt m) · limit` up to a projection is paginated completely. -/
+theorem fetchLoop_sortedEntriesDesc [DecidableEq κ] {α : Type} {lt : κ → κ → Bool} (ht : StrictTotal lt)
+    {m : AMap κ ν} (hm : AMap.NodupKeys m) {limit : Option Nat} (hl : limit ≠ some 0)
+    {q : Option κ → List α} {key : α → κ} {f : κ × ν → α}
+    (hq : ∀ c, q c = (pageDesc lt (sortedEntriesDesc lt m) c limit).map f) (hk : ∀ x, key (f x) = x.1)
+    {fuel : Nat} (hf : m.length + 1 ≤ fuel) :
+    fetchLoop q key none fuel = (sortedEntriesDesc lt m).map f :=
+  fetchLoop_sortedEntries ht.flip hm hl hq hk hf
+
+/-- **One line per filtered listing**: a query that is
+`pageFiltered lt p (sortedEntries lt m) · limit` up to a projection returns exactly the entries
+satisfying `p`, each once, in key order. -/
+theorem fetchLoop_sortedEntries_filtered [DecidableEq κ] {α : Type} {lt : κ → κ → Bool} (ht : StrictTotal lt)
+    {m : AMap κ ν} (hm : AMap.NodupKeys m) (p : κ × ν → Bool) {limit : Option Nat} (hl : limit ≠ some 0)
+    {q : Option κ → List α} {key : α → κ} {f : κ × ν → α}
+    (hq : ∀ c, q c = (pageFiltered lt p (sortedEntries lt m) c limit).map f) (hk : ∀ x, key (f x) = x.1)
+    {fuel : Nat} (hf : m.length + 1 ≤ fuel) :
+    fetchLoop q key none fuel = ((sortedEntries lt m).filter p).map f := by
+  refine fetchLoop_complete ht ((sortedEntries_sorted hm ht).filter p) hl
+    (fun c => by rw [hq c, pageFiltered_eq]) hk ?_
+  have := List.length_filter_le p (sortedEntries lt m)
+  rw [sortedEntries_length] at this
+  omega
 
 end CwPlus.Paginate
